@@ -38,6 +38,7 @@ func genCase(t *rapid.T, p profile) Case {
 		BackoffMin:  rapid.SampledFrom([]int{1, 5, 10, 50}).Draw(t, "backoffMin"),
 		BackoffMult: rapid.SampledFrom([]int{1, 2, 4, 8, 64}).Draw(t, "backoffMult"),
 		Batch:       rapid.Bool().Draw(t, "batch"),
+		KeyMode:     rapid.SampledFrom([]int{0, 0, 1}).Draw(t, "keyMode"),
 	}
 	if p.prune && rapid.Bool().Draw(t, "pruneOn") {
 		c.PruneMs = rapid.SampledFrom([]int{20, 100, 1000}).Draw(t, "pruneMs")
